@@ -18,13 +18,13 @@ ASSUMPTIONS = [
     "QuickSampler's 1e-9 threshold comparisons fork and both sides are explored when feasible",
 ]
 BOUNDS = {
-    "quick": "symbolic bs/ps/loss shapes of C04 on 2-3 modes with 0-1 herald (photon number 0..1, in != out allowed), <=2 user photons (0 with a photon-carrying herald), 1-2 equal-photon inputs with distinct expected outputs in either mapping order; post-selection: none, one or two rules, a predicate on indices, a predicate using the State API; both detector modes of the quick sampler",
+    "quick": "symbolic bs/ps/loss shapes of C04 on 2-3 modes with 0-1 herald (photon number 0..1, in != out allowed), <=2 user photons (0 with a photon-carrying herald), several single-mode rules on one mode (multi_rules) for 2 photons, 1-2 equal-photon inputs with distinct expected outputs in either mapping order; post-selection: none, one or two rules, a predicate on indices, a predicate using the State API; both detector modes of the quick sampler",
     "thorough": "adds 3 photons on lossless shapes and two-herald circuits",
 }
 OUTSIDE = "photon numbers and sizes above the bound; float rounding"
 STUBS = ["thewalrus.perm -> definitional permanent"]
 
-POSTSEL = ["none", "rule1", "rule2", "func", "statefunc"]
+POSTSEL = ["none", "rule1", "rule2", "func", "statefunc", "multi"]
 
 
 def _mk_postselect(ctx, kind, n_user):
@@ -39,6 +39,12 @@ def _mk_postselect(ctx, kind, n_user):
         ps = lw.PostSelection()
         ps.add((0, n_user - 1), 1) if n_user > 1 else ps.add(0, 1)
         return ps, (lambda s: (s[0] + s[n_user - 1] if n_user > 1 else s[0]) == 1)
+    if kind == "multi":
+        # several rules on the same mode (multi_rules=True): an output is accepted only if every rule holds
+        ps = lw.PostSelection(multi_rules=True)
+        ps.add(0, (0, 1))
+        ps.add(0, (1, 2))
+        return ps, (lambda s: s[0] == 1)
     if kind == "statefunc":
         # a predicate written against the State API (what the Sampler hands to predicates)
         one = lw.State([1])
@@ -246,6 +252,8 @@ def harnesses(tier):
                     continue
                 for psl in POSTSEL:
                     if k == 0 and psl != "none":
+                        continue
+                    if psl == "multi" and k < 2:
                         continue
                     an.append(dict(shape=shape, herald=her, k=k, postsel=psl, two_inputs=(psl in ("none", "rule1") and k >= 1 and k + hp <= 3)))
                     if (k >= 1 or hp >= 1) and _space(n + nl, k + hp) <= 6:
